@@ -515,6 +515,33 @@ struct LiveOut {
     early: Vec<u8>,
     late: Vec<u8>,
     sent_open: Vec<u8>,
+    /// what the REAL `MrtDumper::serve` (update dump, no rotation) wrote to its file during the session
+    mrt: Vec<u8>,
+}
+
+static LIVE_SEQ: std::sync::atomic::AtomicU64 = std::sync::atomic::AtomicU64::new(0);
+
+/// Canonical form of an MRT update dump: wall-clock timestamps zeroed; per record the bytes after the BGP4MP
+/// header of an IPv4 session (the embedded BGP message).
+fn canon_mrt(b: &[u8]) -> Option<(Vec<u8>, Vec<Vec<u8>>)> {
+    let mut out = b.to_vec();
+    let mut embs = vec![];
+    let mut p = 0;
+    while p < out.len() {
+        if p + 12 > out.len() {
+            return None;
+        }
+        let l = u32::from_be_bytes([out[p + 8], out[p + 9], out[p + 10], out[p + 11]]) as usize;
+        if p + 12 + l > out.len() || l < 20 {
+            return None;
+        }
+        for x in &mut out[p..p + 4] {
+            *x = 0;
+        }
+        embs.push(out[p + 12 + 20..p + 12 + l].to_vec());
+        p += 12 + l;
+    }
+    Some((out, embs))
 }
 
 struct LiveCfg {
@@ -618,6 +645,23 @@ async fn run_live(cfg: &LiveCfg, acts: &[(bool, Vec<u8>)]) -> Option<LiveOut> {
     let rcfg = rig::RigCfg { rid: cfg.lrid, asn: cfg.lasn, hold: cfg.lhold, expected: cfg.rasn };
     let mut rg = if cfg.ap { rig_with_addpath(rcfg).await } else { rig::Rig::new(rcfg).await };
     let mut early = crate::bmp::verif_c19_bmp::LiveServe::start(rg.global.clone(), rg.tables.clone(), 4).await;
+    // the MRT update dumper of `mrt dump updates` (interval 0 = one file), subscribed before the session
+    let mrt_path = format!(
+        "{}.mrt{}-{}",
+        std::env::var("VERIF_OUT").unwrap_or_else(|_| "/tmp/c19".into()),
+        std::process::id(),
+        LIVE_SEQ.fetch_add(1, std::sync::atomic::Ordering::Relaxed)
+    );
+    let mrt_cancel = tokio_util::sync::CancellationToken::new();
+    let mrt_task = {
+        let file = tokio::fs::File::create(&mrt_path).await.ok()?;
+        let (c2, t2, p2) = (mrt_cancel.clone(), rg.tables.clone(), mrt_path.clone());
+        tokio::spawn(async move {
+            let mut d = crate::mrt::MrtDumper::new(&p2, 0);
+            let _ = d.serve(file, c2, t2).await;
+        })
+    };
+    tokio::task::yield_now().await;
     if !rg.connect(Role::Passive).await {
         return None;
     }
@@ -667,7 +711,14 @@ async fn run_live(cfg: &LiveCfg, acts: &[(bool, Vec<u8>)]) -> Option<LiveOut> {
         }
         None => vec![],
     };
-    Some(LiveOut { early: early.finish().await, late, sent_open })
+    let early = early.finish().await;
+    // let the dumper drain its channel, then stop it and read its file
+    tokio::time::sleep(std::time::Duration::from_millis(20)).await;
+    mrt_cancel.cancel();
+    let _ = mrt_task.await;
+    let mrt = std::fs::read(&mrt_path).ok()?;
+    let _ = std::fs::remove_file(&mrt_path);
+    Some(LiveOut { early, late, sent_open, mrt })
 }
 
 fn bgp_len(b: &[u8]) -> Option<usize> {
@@ -818,6 +869,9 @@ fn build_live(a: &[Term]) -> Option<Built> {
     let (b2, e2, ok2) = canon_bmp(&o.late)?;
     bytes.extend_from_slice(&b2);
     embs.extend(e2);
+    let (b3, e3) = canon_mrt(&o.mrt)?;
+    bytes.extend_from_slice(&b3);
+    embs.extend(e3.into_iter().map(|e| (true, e)));
     let sent = parse_back(&o.sent_open, false);
     let recv = parse_back(&live_open_frame(cfg.rasn, cfg.rhold, cfg.rrid, cfg.ap), false);
     let term = Term::tag(
@@ -1152,6 +1206,16 @@ fn verif_main() {
         }
         for l in describe_bmp(&o.late) {
             txt += &format!("L {}\n", l);
+        }
+        if let Some((c, e)) = canon_mrt(&o.mrt) {
+            let mut p = 0;
+            for x in e {
+                let l = u32::from_be_bytes([c[p + 8], c[p + 9], c[p + 10], c[p + 11]]) as usize;
+                txt += &format!("M sub={} hdr={:?} {} | ap: {}\n", c[p + 7], &c[p + 12..p + 32], parse_back(&x, false), parse_back(&x, true));
+                p += 12 + l;
+            }
+        } else {
+            txt += "M unreadable\n";
         }
         std::fs::write(&out, txt).unwrap();
     } else if std::env::var("VERIF_MODE").as_deref() == Ok("gen") {
